@@ -120,7 +120,7 @@ subroutine intr(x, y, z, v, w, n)
   y = sum(v) + product(w(:))
   z = minval(v, mask=w > 0.0)
 end subroutine intr
-""")
+""", tiers=("thorough",))
 
 _seed("matmul", """
 subroutine mm(a, b, c, x, y, r)
@@ -188,7 +188,7 @@ subroutine saver(q)
   q = acc
 end subroutine saver
 end module inline_mod
-""")
+""", tiers=("thorough",))
 
 _seed("hoistlocal", """
 module hoistlocal_mod
@@ -206,7 +206,7 @@ subroutine work(a, m)
   end do
 end subroutine work
 end module hoistlocal_mod
-""")
+""", tiers=("thorough",))
 
 _seed("cond", """
 subroutine cond(a, n, flag)
@@ -231,7 +231,7 @@ subroutine cond(a, n, flag)
     k = k + 1
   end do
 end subroutine cond
-""")
+""", tiers=("thorough",))
 
 _seed("induct", """
 subroutine induct(a, b, n)
@@ -289,7 +289,7 @@ program prog
   call ext(a, b)
   print *, a(1)
 end program prog
-""")
+""", tiers=("thorough",))
 
 _seed("tile", """
 subroutine tile(a, b, n, m)
@@ -536,7 +536,7 @@ end subroutine omp
 _seed("omp_par", _OMP_SRC, pre=[
     ("OMPLoopTrans", {}, {"t": "node", "p": [0, 0]}, {}),
     ("OMPParallelTrans", {}, {"t": "list", "p": [0], "i": 0, "j": 2}, {}),
-])
+], tiers=("thorough",))
 _seed("omp_task", _OMP_SRC, pre=[
     ("OMPTaskloopTrans", {}, {"t": "node", "p": [0, 0]}, {}),
     ("OMPTaskloopTrans", {"nogroup": True}, {"t": "node", "p": [0, 1]}, {}),
@@ -547,11 +547,11 @@ _seed("acc_par", _OMP_SRC, pre=[
     ("ACCLoopTrans", {}, {"t": "node", "p": [0, 0]}, {}),
     ("ACCParallelTrans", {}, {"t": "list", "p": [0], "i": 0, "j": 1}, {}),
     ("ACCKernelsTrans", {}, {"t": "list", "p": [0], "i": 1, "j": 2}, {}),
-])
+], tiers=("thorough",))
 _seed("acc_data", _OMP_SRC, pre=[
     ("ACCKernelsTrans", {}, {"t": "list", "p": [0], "i": 0, "j": 1}, {}),
     ("ACCDataTrans", {}, {"t": "list", "p": [0], "i": 0, "j": 2}, {}),
-])
+], tiers=("thorough",))
 _seed("chunked", _OMP_SRC, pre=[
     ("ChunkLoopTrans", {}, {"t": "node", "p": [0, 0]}, {"chunksize": 4}),
 ])
@@ -560,10 +560,10 @@ _seed("omp_target", _OMP_SRC, pre=[
      {"t": "node", "p": [0, 0]}, {}),
     ("OMPTargetTrans", {}, {"t": "node", "p": [0, 0]}, {}),
     ("ACCRoutineTrans", {}, {"t": "node", "p": [0]}, {}),
-])
+], tiers=("thorough",))
 _seed("profiled", _OMP_SRC, pre=[
     ("ProfileTrans", {}, {"t": "list", "p": [0], "i": 0, "j": 1}, {}),
-])
+], tiers=("thorough",))
 
 
 # --- algorithm-layer and kernel-layer seeds (files of the test-suite) --------
@@ -611,12 +611,14 @@ def _psy(name, api, alg, dm, tiers=("quick", "thorough"), pre=()):
 
 _psy("lf_single_dm", "dynamo0.3", "dynamo0p3/1_single_invoke.f90", True,
      tiers=("thorough",))
-_psy("lf_single", "dynamo0.3", "dynamo0p3/1_single_invoke.f90", False)
+_psy("lf_single", "dynamo0.3", "dynamo0p3/1_single_invoke.f90", False,
+     tiers=("thorough",))
 _psy("lf_multikern_dm", "dynamo0.3", "dynamo0p3/4_multikernel_invokes.f90",
      True,
      tiers=("thorough",))
 _psy("lf_multikern", "dynamo0.3", "dynamo0p3/4_multikernel_invokes.f90",
-     False)
+     False,
+     tiers=("thorough",))
 _psy("lf_builtins_dm", "dynamo0.3",
      "dynamo0p3/15.14.4_builtin_and_normal_kernel_invoke.f90", True,
      tiers=("thorough",))
@@ -639,14 +641,15 @@ _psy("lf_kmi_clash", "dynamo0.3", "dynamo0p3/4_multikernel_invokes.f90",
          ("KernelModuleInlineTrans", {}, {"t": "node", "p": [0, 0, 3, 0]}, {}),
          ("Dynamo0p3KernelConstTrans", {}, {"t": "node", "p": [0, 1, 3, 0]},
           {"number_of_layers": 20}),
-     ])
+     ], tiers=("thorough",))
 _psy("lf_coloured", "dynamo0.3", "dynamo0p3/1_single_invoke.f90", False,
      pre=[("Dynamo0p3ColourTrans", {}, {"t": "node", "p": [0, 0]}, {})],
      tiers=("thorough",))
 _psy("lf_omp_region", "dynamo0.3", "dynamo0p3/1_single_invoke.f90", False,
      pre=[("OMPParallelTrans", {},
            {"t": "list", "p": [0], "i": 0, "j": 1}, {})])
-_psy("go_two", "gocean1.0", "gocean1p0/single_invoke_two_kernels.f90", True)
+_psy("go_two", "gocean1.0", "gocean1p0/single_invoke_two_kernels.f90", True,
+     tiers=("thorough",))
 _psy("go_three", "gocean1.0", "gocean1p0/single_invoke_three_kernels.f90",
      False,
      tiers=("thorough",))
